@@ -38,27 +38,27 @@ Readings of ambiguous English (weaker reading taken, see README "Findings policy
 
 LOG (kept current)
 
-Theorems (coq/theories/C02/Property.v, all "Closed under the global context"):
-  C02_dims_denotations      forall d, ser_dim (deser_dim d) = norm_dim d                         (full, all dims)
-  C02_types_nested          wf_type t -> type/shape deserialize and norm (ser) = norm t          (full, any nesting)
-  C02_tensor_fields         wf_tensor t -> roundtrip_tensor t = Ok q /\ norm q = norm t          (full; proto-backed,
-                            external [location/offset/length in any order, canonical ints], string tensors; Proofs2
-                            also proves the initializer renaming `const_value.name = value.name`)
-  C02_value_info            wf_vinfo vi -> roundtrip ok and norm-equal                            (full)
-  C02_attrs_all_kinds       every attribute kind but sparse + reference attributes, relative to the round trip of
-                            nested graphs (hypothesis Hg, to be discharged by the graph stage)
-  C02_attrs_flat            unconditional corollary: attributes whose graph values are empty graphs, with the real
-                            deser_graph/ser_graph (shows Hg is satisfiable)
-  C02_node_scoping          a node in a scope stack: scoped input resolution under the invariant key = value name,
-                            optional inputs, trailing outputs, ai.onnx alias, attribute dictionary, metadata, device
-                            configurations gated on the IR version; the name table is unchanged        (relative to Hg)
-  C02_metadata_every_carrier  unique-key dictionaries written back sorted = sorted original
-  C02_roundtrip_partial     the conjunction for TensorProto / ValueInfoProto / TypeProto
+Theorems (coq/theories/C02/Property.v, all "Closed under the global context"; ck.level = "proof"):
+  C02_roundtrip / C02_model_roundtrip   PRINCIPAL, full: forall p, wf_model p -> exists q, roundtrip_model p = Ok q
+                            /\ norm_model q = norm_model p   (IR 3..13, opset dict, functions table, device
+                            configurations at IR >= 11, metadata, producer fields)
+  C02_function_roundtrip    functions: overloads, attribute parameters, reference attributes, IR-10 value_info
+                            incl. function inputs, nothing moved to the main graph for a well-formed function
+  C02_graph_roundtrip / C02_graph_scoping   graphs at every nesting depth and in any scope stack: scoped name tables
+                            (invariant key = value name), "initializer for an input", outputs declared before
+                            nodes, value-info application/emission/completion for initializers, quantization
+                            annotations exactly once, pass-through inputs, trailing outputs
+  C02_node_scoping, C02_attrs_all_kinds, C02_attrs_flat   nodes / attributes relative to the nested graphs (the
+                            hypothesis is discharged inside the graph stage by induction on the nesting depth)
+  C02_value_info, C02_tensor_fields, C02_types_nested, C02_dims_denotations, C02_metadata_every_carrier
   C02_external_checksum_refuted  the model reproduces the recorded finding (witness by computation)
-  MISSING (principal theorem C02_roundtrip is therefore partial, ck.level = translation_validation):
-  graph/scoping stage (initializer loop incl. "initializer for an input", _declare_node_outputs, output loop,
-  value-info/quantization emission rules), function stage, model stage.  They are executable in the model and
-  validated per generated proto inside Coq (wf p -> norm (ser (deser p)) = norm p) and against the implementation.
+  Proof files: Proofs1-3 (stages up to nodes), ProofsG1-G14 (graph: total step functions, name tables T0..T3 after
+  each phase of _deserialize_graph, final value of every declared name, serializer output as an explicit proto,
+  value-info part, quantization part, induction on depth), ProofsG15-G17 (function), ProofsG18 (model),
+  ProofsFuel/ProofsDepth (the fuel of deser_graph/ser_graph is immaterial above the nesting depth),
+  ProofsEqb (soundness of the boolean equality used in wf for pass-through inputs).
+  Fuel: deser_* use 1 + nesting depth of the proto, ser_* the depth of the IR; exhaustion is an error and the
+  theorems prove it does not happen.
 
 Tie: see above; quick = 200 models + 67 mutated (20 kinds of unsupported constructs) + 50 graphs + 200 tensors +
   200 value-infos + 40 backend/testdata seeds + corpus/C02 (witnesses of the fixed findings); every feature of the
@@ -99,6 +99,10 @@ Mutants tried (scratch worktree, VERIF_REPO), all reported VIOLATION with a conc
   m11 _declare_node_outputs ignores value_info                               caught
   m12 _should_create_value_info_for_value ignores doc/metadata-only values   caught
   m13 _MULTI_DEVICE_SUPPORTED_VERSION = 12 (translated constant)             caught
+  seeded/C02-m1 (orchestrator): deserialize_value_info_proto keeps the old shape when the new one is "equal"
+     (Shape.__eq__ ignores denotations)  first MISSED: the generator never gave an initializer a value_info entry
+     restating the tensor's dims with denotations; feature added (vinfo:restates-initializer,
+     graph:input-restates-initializer), now caught with a 1-initializer replay.  seeded m2, m3: caught.
   Shrinking keeps candidates supported by evaluating Coq's wf on each batch of shrink candidates, so a replay is
   never an unsupported proto (an early version shrank to `sequence_type {}`, which raises on any tree).
 """
@@ -843,8 +847,20 @@ class Gen:
                 nm = self.r.choice(ins)
                 if nm in [t.name for t in g.initializer]:
                     continue
-                self.tensor(g.initializer.add(), nm)
+                t = g.initializer.add()
+                self.tensor(t, nm)
                 self.h("graph:initializer-for-input")
+                if len(t.dims) >= 1 and self.chance(0.4):
+                    # the input's own info restates the tensor (same type and dims) and adds denotations
+                    vi = next(v for v in g.input if v.name == nm)
+                    vi.ClearField("type")
+                    vi.type.tensor_type.elem_type = t.data_type
+                    for d in t.dims:
+                        dd = vi.type.tensor_type.shape.dim.add()
+                        dd.dim_value = d
+                        if self.chance(0.7):
+                            dd.denotation = self.r.choice([x for x in DENOT if x])
+                    self.h("graph:input-restates-initializer")
             else:
                 nm = self.fresh("w")
                 self.tensor(g.initializer.add(), nm)
